@@ -34,6 +34,7 @@ def load_sidecar(prop):
     api.CONTRACTS.clear()
     api.LEMMAS.clear()
     api.AUDITS.clear()
+    api.NATIVES.clear()
     if VERIF not in sys.path:
         sys.path.insert(0, VERIF)
     name = f"contracts.{prop}"
@@ -406,7 +407,11 @@ class UnitRunner:
                         if isinstance(n, _ast.Call) and isinstance(n.func, _ast.Name) and n.func.id == "old":
                             key = _ast.dump(n.args[0])
                             if key not in old_cache:
-                                old_cache[key] = copy.deepcopy(ip.eval_spec_expr(_ast.unparse(n.args[0]), env))
+                                try:
+                                    old_cache[key] = copy.deepcopy(ip.eval_spec_expr(_ast.unparse(n.args[0]), env))
+                                except PyRaise:
+                                    # undefined in the pre-state on this path (e.g. old(table[k].x) with k absent): equal to nothing
+                                    old_cache[key] = UNDEFINED_OLD
             ip.old_cache = old_cache
             raised = None
             env["result"] = None
@@ -425,14 +430,14 @@ class UnitRunner:
                                                                         "args": _short(getattr(raised, 'fields', {}).get('args'))})
                 else:
                     for i, e in enumerate(c["ensures_raise"]):
-                        ip.oblige(f"post-raise#{i}", ip.eval_spec_expr(e, env, total=True), {"ensures_raise": e})
+                        ip.oblige(f"post-raise#{i}", _clause(ip, e, env), {"ensures_raise": e})
             else:
                 env["raised"] = None
                 if c["raises"] is not None:
                     # the path ended without an exception: the 'raises' clause holds on it (discharged by execution)
                     ip.oblige("raises-clause", True, {"raises": c["raises"]})
                 for i, e in enumerate(c["ensures"]):
-                    ip.oblige(f"post#{i}", ip.eval_spec_expr(e, env, total=True), {"ensures": e if isinstance(e, str) else "<fn>"})
+                    ip.oblige(f"post#{i}", _clause(ip, e, env), {"ensures": e if isinstance(e, str) else "<fn>"})
             inlined_all.update(ip.inlined)
             self.assumptions.update(path.assumptions)
             for i, cv in enumerate(c["covers"]):
@@ -476,6 +481,28 @@ class UnitRunner:
             "assumptions": sorted(self.assumptions), "wall_s": time.time() - t0,
             "inlined": sorted(inlined_all), "note": c["note"], "bound": c.get("bounded"),
         }
+
+
+class _UndefinedOld:
+    """value of old(<expr>) when <expr> raises in the pre-state: compares unequal to everything (also to itself)"""
+
+    def __repr__(self):
+        return "<old(): undefined in the pre-state>"
+
+    def __deepcopy__(self, memo):
+        return self
+
+
+UNDEFINED_OLD = _UndefinedOld()
+
+
+def _clause(ip, e, env):
+    """Value of a postcondition clause on the current path.  A clause whose evaluation raises (a KeyError for an entry the
+    clause expects to exist, an AttributeError on a None result, ...) does not hold on this path - same rule as in the native replay."""
+    try:
+        return ip.eval_spec_expr(e, env, total=True)
+    except PyRaise:
+        return False
 
 
 def _count(xs):
@@ -553,6 +580,40 @@ def run_audit(prop, a, overrides):
     return {"unit": name, "fn": "audit:" + a["name"], "contract": a["name"], "instance": {}, "status": status, "error": err,
             "paths": 0, "paths_after_requires": 0, "outcomes": {}, "obligations": obs, "assumptions": [],
             "wall_s": time.time() - t0, "inlined": [], "note": a.get("note", ""), "counts_as_function": False}
+
+
+def run_native(prop, n, overrides=None):
+    """Bounded native stand-in: run the script on the real code; one obligation, labelled bounded."""
+    import subprocess
+    t0 = time.time()
+    name = f"{prop}/native:{n['name']}"
+    ob = {"name": f"{name}/run", "status": "proved", "vcs": 1, "time_s": 0.0, "backends": {"native-run": 1},
+          "info": {"script": n["script"], "bound": n["bound"]}, "model": None, "backend": "native-run"}
+    status, err = "ok", None
+    if overrides:
+        status, err = "unsupported", "native bounded checks run the files of /repo itself and cannot see --mutate overrides"
+        ob["status"] = "unknown"
+    else:
+        try:
+            p = subprocess.run(["/venv/bin/python", os.path.join(VERIF, n["script"])] + [str(a) for a in n["args"]], capture_output=True,
+                               text=True, timeout=n["timeout"], cwd=VERIF, env={**os.environ, "PYTHONPATH": f"{VERIF}:{REPO}", "PYVC_REPO": REPO})
+            lines = [x for x in p.stdout.strip().splitlines() if x.strip()]
+            res = json.loads(lines[-1]) if lines else None
+            if not isinstance(res, dict) or "ok" not in res:
+                raise ValueError("no result line: " + (p.stdout + p.stderr)[-600:])
+            ob["info"]["cases"] = res.get("cases")
+            ob["solver_output"] = f"{res.get('cases')} cases run natively"
+            if not res["ok"]:
+                ob["status"] = "refuted"
+                ob["native_failure"] = {"script": n["script"], "args": n["args"], "failures": res.get("failures", [])[:5]}
+                ob["solver_output"] = json.dumps(res.get("failures", [])[:3], default=str)[:1500]
+        except Exception:  # noqa: BLE001
+            status, err = "error", traceback.format_exc()[-1500:]
+    ob["time_s"] = time.time() - t0
+    return {"unit": name, "fn": ", ".join(n["functions"]) or ("native:" + n["name"]), "contract": n["name"], "instance": {}, "status": status,
+            "error": err, "paths": 0, "paths_after_requires": 0, "outcomes": {}, "obligations": [ob] if status == "ok" else [],
+            "assumptions": [], "wall_s": time.time() - t0, "inlined": list(n["functions"]), "note": n.get("note", ""),
+            "counts_as_function": False, "bound": "NATIVE RUN (sampling, not a proof): " + n["bound"]}
 
 
 def run_lemma(prop, lm, overrides):
